@@ -373,9 +373,11 @@ class KernelCheck:
             want = ob_(k) + ite(k == 0, S['abs0'], z3.RealVal(0)) + ite(k == n - 1, S['absn'], z3.RealVal(0))
             lhs, rhs = _resolve(T.B(k), hh), _resolve(want, hh)
             self.results.extend(self.prove_cases('%s/system.b.%s' % (oid, case), hh, lhs, rhs))
-        # canary: absorbing term on every line (not only the corner lines) must be refuted
+        # canary: absorbing term on every line (not only the corner lines) must be refuted (neutral, no migration: easy model)
         if K > 1:
-            hh = base + [k == 0]
+            env = self.st0.env
+            easy = [toreal(env[nm_]) == 0 for nm_ in env if re.match(r'(m\d\d|gamma\d)$', nm_)] + [toreal(env['nu%d' % (p + 1)]) == 1]
+            hh = base + [k == 0] + easy
             bad = ob_(k) + ite(S['Mfirst'] <= 0, S['abs0_raw'], z3.RealVal(0))
             self.results.append(prove(oid + '/system.b.canary', hh, _resolve(T.B(k), hh) == _resolve(bad, hh), func=fn, canary=True, timeout_ms=20000))
 
